@@ -270,15 +270,35 @@ def run_slow_integrated(rep, rng, n, sb):
         slow_attempt = [(0, slow), (startup + 3, 1), (0, slow * 100)]          # stalls past the grace period
         fast_attempt = [(0, slow * (startup + 5)), (1, slow * 10), (startup, slow * startup * 2)]
         grace_attempt = [(0, 1), (max(startup - 1, 0) * 0.5, 1)]               # slow, but inside the grace period
-        kind = rng.choice(["slow_then_fast", "fast", "grace"])
+        kind = rng.choice(["slow_then_fast", "fast", "grace", "throttled"])
         plan = {"pool/a.bin": {"slow_then_fast": [slow_attempt, fast_attempt], "fast": [fast_attempt],
-                               "grace": [grace_attempt]}[kind]}
+                               "grace": [grace_attempt]}.get(kind)}
         case = {"plan": plan, "nthreads": 1}
+        if kind == "throttled":
+            # the server is fast, the tool's own rate limit is what makes the transfer crawl: the bucket is filled by
+            # the first chunk, the second one waits for the limiter far beyond the grace period, and the average
+            # rate of the transfer is then below slow_rate - the statement asks for an abort and a retry
+            L = rng.choice([64, 256, 1024])
+            slow = 100 * L
+            startup = rng.choice([1, 2, 4])
+            plan["pool/a.bin"] = [[(0, 60 * L), (0, 5 * L)]]
+            case["limit"] = L
         log, _, d = run_loop_case(case, sb, slow=(startup, slow), patch_clock=True)
         attempts = d.attempts["pool/a.bin"]
         want_attempts = 2 if kind == "slow_then_fast" else 1
         rep.case(("slow-int", kind, startup, slow), sample={"kind": kind, "attempts": attempts})
         rep.count(f"slowint.{kind}")
+        if kind == "throttled":
+            if attempts < 2:
+                found = True
+                rep.violation(
+                    f"throttled: a transfer kept below slow_rate ({slow} B/s) by the tool's own limit_rate ({case['limit']} B/s) "
+                    f"long after the grace period ({startup} s) was not aborted ({attempts} attempt, "
+                    f"downloaded={d.downloaded_files_count})",
+                    {"kind": "oracle", "tie": "slow-integrated", "case": {"kind": kind, "startup": startup, "slow": slow,
+                                                                         "limit": case["limit"], "plan": plan}},
+                    tags={"oracle": "slow_retry"})
+            continue
         if attempts != want_attempts or d.downloaded_files_count != 1:
             found = True
             rep.violation(
